@@ -17,7 +17,9 @@ RULE = (
     "under the documented layout of the variant; the returned value must be one of the admissible cells (floor, plus the "
     "neighbour across any cell boundary closer than 1e-9 cells - 1e-5 for the Galactic variant -, the seam neighbour of column "
     "0 being column nx-1). Output shape = request shape + colour axes; no exception. One case in 15 repeats its points cyclically into "
-    "a large request (256x256 ... 70000x1, 1x3000, 600x130): same shape rule, equal points get equal pixels. The Galactic variant is checked after an "
+    "a large request (256x256 ... 70000x1, 1x3000, 600x130): same shape rule, equal points get equal pixels. One case in four hands "
+    "the request over differently: read-only arrays, integer arrays, one array object for both coordinates, or arrays already used "
+    "for an earlier request to the same sampler object and refilled in place. The Galactic variant is checked after an "
     "independent ICRS->Galactic rotation (Hipparcos matrix). The ecliptic sampler's layout is not among those the property "
     "enumerates: only shape / in-range / periodicity are judged for it. Non-trivial: nx,ny>=2 and >=1 point farther than the "
     "tolerance from every cell boundary."
@@ -112,9 +114,32 @@ def exec_case(case):
         idx = np.arange(len(pts))
     lon = np.array([p[0] + 2 * math.pi * p[2] for p in pts], dtype=float)[idx].reshape(shape)
     lat = np.array([p[1] for p in pts], dtype=float)[idx].reshape(shape)
-    with toasty_call("no-exception", f"{variant} sampler on a {ny}x{nx} map"):
+    req = case.get("request") or {}
+    lon_in, lat_in = lon.copy(), lat.copy()
+    if req.get("int"):
+        lon_in, lat_in = lon_in.astype(np.int64), lat_in.astype(np.int64)
+        lon, lat = lon_in.astype(float), lat_in.astype(float)
+    if req.get("alias"):
+        lat_in = lon_in  # one array object handed over for both coordinates
+    with toasty_call("no-exception", f"{variant} sampler on a {ny}x{nx} map, request {req or 'as two fresh float arrays'}"):
         f = make_sampler(variant, data)
-        out = np.asarray(f(lon.copy(), lat.copy()))
+        if req.get("before"):
+            # an earlier request through the same sampler and the same array objects, which are then refilled in place
+            keep_lon, keep_lat = lon_in.copy(), lat_in.copy()
+            b = req["before"]
+            bi = np.arange(lon_in.size) % len(b)
+            # (a shared array must hold values that are legal latitudes too)
+            lon_in[...] = np.array([q[1 if lat_in is lon_in else 0] for q in b], dtype=float)[bi].reshape(lon_in.shape).astype(lon_in.dtype)
+            if lat_in is not lon_in:
+                lat_in[...] = np.array([q[1] for q in b], dtype=float)[bi].reshape(lat_in.shape).astype(lat_in.dtype)
+            f(lon_in, lat_in)
+            lon_in[...] = keep_lon
+            if lat_in is not lon_in:
+                lat_in[...] = keep_lat
+        if req.get("readonly"):
+            lon_in.setflags(write=False)
+            lat_in.setflags(write=False)
+        out = np.asarray(f(lon_in, lat_in))
     exp_shape = shape + ((planes,) if planes else ())
     if out.shape != exp_shape:
         raise Violation("shape", f"{variant}: output shape {out.shape}, expected {exp_shape}")
@@ -183,6 +208,8 @@ def exec_case(case):
         cls.append("shifted-by-turns")
     if any(abs(abs(p[1]) - math.pi / 2) < 1e-12 for p in pts):
         cls.append("pole-row")
+    for k_ in sorted(req):
+        cls.append("request:" + k_)
     if big:
         cls.append("request-larger-than-a-tile" if shape[0] * shape[1] > 65536 else "request-of-odd-shape")
     return Outcome(classes=cls, nontrivial=nx >= 2 and ny >= 2 and n_clear >= 1, count=len(pts), info={"clear_points": n_clear})
@@ -217,6 +244,22 @@ def strat(draw, tier):
             lat = draw(st.floats(-math.pi / 2, math.pi / 2))
         pts.append([lon, lat, turns])
     case = {"variant": variant, "ny": ny, "nx": nx, "planes": planes, "points": pts, "shape": [a, b]}
+    if draw(st.integers(0, 3)) == 0:
+        # the request handed over in other legal ways: read-only arrays (broadcast views are), integer arrays, one array for
+        # both coordinates, arrays that were used for an earlier request to the same sampler and refilled in place
+        req = {}
+        how = draw(st.sampled_from(["readonly", "alias", "int", "before", "before", "before+readonly", "alias+before"]))
+        if "alias" in how:
+            case["points"] = pts = [[p[1], p[1], 0] for p in pts]
+            req["alias"] = True
+        if "int" in how:
+            case["points"] = pts = [[float(round(p[0])), float(max(-1, min(1, round(p[1])))), 0] for p in pts]
+            req["int"] = True
+        if "readonly" in how:
+            req["readonly"] = True
+        if "before" in how:
+            req["before"] = [[draw(st.floats(-2 * math.pi, 2 * math.pi)), draw(st.floats(-math.pi / 2, math.pi / 2))] for _ in range(draw(st.integers(1, 4)))]
+        case["request"] = req
     if draw(st.integers(0, 14)) == 0:
         case["big"] = draw(st.sampled_from([[256, 256], [520, 256], [256, 520], [600, 130], [130, 600], [70000, 1], [1, 3000], [300, 300], [257, 256], [1000, 70]]))
     return case
